@@ -180,7 +180,7 @@ def x_prog(ctx, case):
 
 SUBCHECKS = {"prog": x_prog}
 
-FEATURES = ("own_exc", "expect", "force", "decor", "noupcall", "nested_cleanup", "truthy_return", "patch",
+FEATURES = ("bad_fixture_detail", "own_exc", "expect", "force", "decor", "noupcall", "nested_cleanup", "truthy_return", "patch",
             "fixture", "handlers")
 
 
